@@ -501,6 +501,28 @@ func main() {
 	writeIfChanged(filepath.Join(*out, "Arith.lean"), genArith(*repo, consts))
 	writeIfChanged(filepath.Join(*out, "Facts.lean"), genFacts(*repo))
 	writeIfChanged(filepath.Join(*out, "FactsC15.lean"), genFactsC15(*repo)) // C15: see facts_c15.go
+	// topic files register further generated modules from their own init(): see register below
+	for _, g := range registry {
+		writeIfChanged(filepath.Join(*out, g.name), g.gen(*repo, consts))
+	}
+}
+
+// A topic file (tools/goextract/<topic>.go) adds a regenerated Lean module without touching this file:
+//
+//	func init() { register("Topic.lean", genTopic) }   // genTopic(repo string, consts []constKV) string
+//
+// The module lands in lean/Mieru/Gen/Topic.lean (namespace of your choice under Mieru.Gen). A Go function
+// or fact the generator cannot handle must be emitted as a line `-- BROKEN-TIE <name>: <why>` (bin/check
+// reports every such line in any Gen file), never skipped silently.
+type genFile struct {
+	name string
+	gen  func(repo string, consts []constKV) string
+}
+
+var registry []genFile
+
+func register(name string, gen func(repo string, consts []constKV) string) {
+	registry = append(registry, genFile{name, gen})
 }
 
 type constKV struct {
